@@ -16,6 +16,7 @@ namespace {
       const ipr::Sum* S[2];
       const ipr::Linkage* L[3];      // L[0] = C++ (natural)
       const ipr::Calling_convention* C[2];   // C[0] = natural (empty)
+      const ipr::Identifier* ID[3];          // identifiers denoting types: two extended built-ins and a built-in spelling
       // fillers: operand nodes that only the concrete bulk requests of h_separated use; `pre` of them are created before the
       // pools and the others after, so that the pool nodes sit in the middle of the address order the tables are keyed on
       enum { NF = C01_FILL, NK = 16 };
@@ -40,6 +41,7 @@ namespace {
          S[0] = &lx.get_sum(w1); S[1] = &lx.get_sum(w2); vp_sort_by_address(S, 2);
          L[0] = &lx.cxx_linkage(); L[1] = &lx.c_linkage(); L[2] = &lx.get_linkage(u8"Zed");
          C[0] = &lx.get_calling_convention(u8""); C[1] = &lx.get_calling_convention(u8"fastcall");
+         ID[0] = &lx.get_identifier(u8"__int128"); ID[1] = &lx.get_identifier(u8"__float128"); ID[2] = &lx.get_identifier(u8"int");
          if (fill) make_fillers(pre, NF);
       }
       // one concrete request per table for filler i (deterministic: nothing symbolic, so it costs instructions only)
@@ -63,7 +65,7 @@ namespace {
          return ok;
       }
    };
-   enum Ctor { KPointer, KReference, KRvalue_reference, KArray, KQualified, KFunction, KProduct, KSum, KForall, KPtr_to_member, KTor, KAs_type, KTransfer, NCTOR };
+   enum Ctor { KPointer, KReference, KRvalue_reference, KArray, KQualified, KFunction, KProduct, KSum, KForall, KPtr_to_member, KTor, KAs_type, KAs_type_id, KTransfer, NCTOR };
    struct Req { unsigned c; unsigned a[4]; const void* node; };
 
    // Issue one symbolically chosen request to constructor c.  a[] receives the canonical arguments.
@@ -97,6 +99,7 @@ namespace {
          r.a[0] = vp_pick(lite ? 2 : 3); unsigned l = vp_pick(tiny ? 3 : 2), cc = lite && !tiny ? 0 : vp_pick(2); r.a[1] = l * 2 + cc; unsigned form = tiny ? 0 : vp_pick(2);
          if (r.a[1] == 0 && form) return &lx.get_as_type(*w.E[r.a[0]]);
          return &lx.get_as_type(*w.E[r.a[0]], lx.get_transfer(*w.L[l], *w.C[cc])); }
+      case KAs_type_id: r.a[0] = vp_pick(3); return &lx.get_as_type(*w.ID[r.a[0]]);          // identifier -> (extended) built-in type
       case KTransfer: {
          r.a[0] = vp_pick(3); r.a[1] = vp_pick(2); unsigned form = tiny ? 0 : vp_pick(2);
          if (r.a[1] == 0 && form) return &lx.get_transfer_from_linkage(*w.L[r.a[0]]);
@@ -121,6 +124,7 @@ namespace {
       case KPtr_to_member: return &lx.get_ptr_to_member(*w.T[r.a[0]], *w.T[r.a[1]]);
       case KTor: return &lx.get_tor(*w.P[r.a[0]], *w.S[r.a[1]]);
       case KAs_type: return &lx.get_as_type(*w.E[r.a[0]], lx.get_transfer(*w.L[r.a[1] / 2], *w.C[r.a[1] % 2]));
+      case KAs_type_id: return &lx.get_as_type(*w.ID[r.a[0]]);
       case KTransfer: return &lx.get_transfer(*w.L[r.a[0]], *w.C[r.a[1]]);
       }
       return nullptr;
@@ -172,7 +176,7 @@ namespace {
 }
 extern "C" void h_order_lemmas(void) {
    World* w = new World; auto& lx = w->lx; Req r[3]; int c[3][3];
-   unsigned k = vp_pick(NCTOR - 2);        // the nameable comparators: every table but function/as-type with transfer (see h_table3) and transfers (values)
+   unsigned k = vp_pick(NCTOR - 3);        // the nameable comparators: every table but function/as-type with transfer (see h_table3) and transfers (values)
    for (int i = 0; i < 3; ++i) r[i].node = request(*w, r[i], k, 2);
    for (int i = 0; i < 3; ++i) for (int j = 0; j < 3; ++j) {
       const Req& x = r[i]; const Req& y = r[j];
